@@ -372,12 +372,17 @@ func (e *env) proposalFailures(r *rec) {
 		return &cctypes.MsgUpdateChainOracles{ChainName: "eth", Authority: world.GovAuthority(), Oracles: []string{w.A("u1").Bech()}}
 	}
 	panicking := func() sdk.Msg {
-		// an oracle list on a chain name the router knows but with an oracle whose delegation record is gone would panic; not constructible
-		// through public routes, so the panicking message is a raw store update that corrupts nothing but fails its compare-and-set
-		return failing()
+		// the same message type for the bsc module, whose stored oracle list a raw store update (below) has made
+		// undecodable: the handler panics while reading it
+		return &cctypes.MsgUpdateChainOracles{ChainName: "bsc", Authority: world.GovAuthority(), Oracles: []string{o1}}
 	}
-	for _, shape := range []string{"G(control)", "F", "GF", "GGF", "GFG", "FG", "GGG(control)"} {
+	for _, shape := range []string{"G(control)", "F", "GF", "GGF", "GFG", "FG", "GGG(control)", "P", "GP", "GPG", "PG"} {
 		ctx := world.Branch(e.ctx)
+		if strings.Contains(shape, "P") {
+			key := hex.EncodeToString(cctypes.ProposalOracleKey)
+			old := hex.EncodeToString(scen.Store(w, ctx, "bsc").Get(cctypes.ProposalOracleKey))
+			w.MustDeliver(ctx, &fxgovtypes.MsgUpdateStore{Authority: world.GovAuthority(), UpdateStores: []fxgovtypes.UpdateStore{{Space: "bsc", Key: key, OldValue: old, Value: "ff"}}})
+		}
 		var msgs []sdk.Msg
 		tag := uint64(1)
 		for _, ch := range strings.Split(shape, "(")[0] {
@@ -481,9 +486,9 @@ func min(a, b int) int {
 
 func init() {
 	registry.Register(&registry.Check{
-		ID:    "C18",
-		Level: "fault_enumeration",
-		Rule:  "tolerated-failure boundaries x failure points: (a) observed events whose handler fails (duplicate bridge token, FX decimals mismatch, unknown oracle set) - only the attestation, last-observed and per-oracle nonce keys may change; (b) inbound bridge call to a contract that reverts before / after its writes, with 1 or 2 tokens, with the k-th token pair disabled, and with the nested call cut at every gas threshold of the callee's trace (block max gas varied) - either the claim execution fails as a whole and nothing changes, or the refund record holds exactly the claim's tokens and no contract write, token move or account change of the failed call survives; (c) passed proposals with message shapes G, F, GF, GGF, GFG, P, GP (G good, F failing, P panicking) - proposal marked failed, deposits refunded, no effect of earlier messages. IBC packet failures are enumerated in C19. distinct_nontrivial = distinct (boundary, variant, outcome) classes",
+		ID:          "C18",
+		Level:       "fault_enumeration",
+		Rule:        "tolerated-failure boundaries x failure points: (a) observed events whose handler fails (duplicate bridge token, FX decimals mismatch, unknown oracle set) - only the attestation, last-observed and per-oracle nonce keys may change; (b) inbound bridge call to a contract that reverts before / after its writes, with 1 or 2 tokens, with the k-th token pair disabled, and with the nested call cut at every gas threshold of the callee's trace (block max gas varied) - either the claim execution fails as a whole and nothing changes, or the refund record holds exactly the claim's tokens and no contract write, token move or account change of the failed call survives; (c) passed proposals with message shapes G, F, GF, GGF, GFG, P, GP (G good, F failing, P panicking) - proposal marked failed, deposits refunded, no effect of earlier messages. IBC packet failures are enumerated in C19. distinct_nontrivial = distinct (boundary, variant, outcome) classes",
 		Assumptions: []string{"the callee is a hand-assembled contract (marker write, ERC-20 transfer, marker write, optional revert)", "CallEVM takes its gas limit from the block max gas, which is therefore the varied quantity"},
 		Jobs: func(tier string) []registry.Job {
 			return []registry.Job{{Name: "boundaries-x-failure-points", Custom: run(tier == "thorough"), Shards: 1}}
